@@ -11,46 +11,67 @@ import (
 //	forward  i = 0..n-1 : scratch[i] = acc ; acc = (in[i] == 0) ? acc : acc·in[i]      (acc starts as 1)
 //	acc = acc^-1
 //	backward i = n-1..0 : in[i] = (in[i] == 0) ? in[i] : acc·scratch[i] ; acc = (in[i] == 0) ? acc : acc·in[i]
-func batchInvertSpec() *edt.Spec {
-	const (
-		acc1 = "havoc@L1(A<field.Element>#0)"
-		acc2 = "havoc@L2(A<field.Element>#0)"
-		scr  = "havoc@L1(M<[]field.Element>#0)"
-		in1  = "$inputs[φL1.0]"
-		in2  = "$inputs[φL2.0]"
+func batchInvertSpec() *edt.Spec { return batchInvertSpecFor(true) }
+
+// batchInvertSpecFor: the scratch slice may be pre-initialised by a first loop (hasInit) — a dead
+// store, every element is Set in the forward pass before it is read — or not.
+func batchInvertSpecFor(hasInit bool) *edt.Spec {
+	LF, LB := "L1", "L2"
+	if !hasInit {
+		LF, LB = "L0", "L1"
+	}
+	var (
+		acc1 = "havoc@" + LF + "(A<field.Element>#0)"
+		acc2 = "havoc@" + LB + "(A<field.Element>#0)"
+		scr  = "havoc@" + LF + "(M<[]field.Element>#0)"
+		in1  = "$inputs[φ" + LF + ".0]"
+		in2  = "$inputs[φ" + LB + ".0]"
 	)
 	sel := func(a, b, c string) string { return "Element.ConditionalSelect(" + a + ", " + b + ", " + c + ")" }
 	return &edt.Spec{
-		Pkg: "internal/field", Func: "BatchInvert", SymLoops: true, MinPaths: 4,
+		Pkg: "internal/field", Func: "BatchInvert", SymLoops: true, MinPaths: map[bool]int{true: 4, false: 3}[hasInit],
 		Opaque: []string{"Element.Mul", "Element.Invert", "Element.IsZero", "Element.ConditionalSelect", "Element.Set", "Element.One"},
-		Vars: map[string]string{
-			"(φL0.0 < len(zeros(len($inputs))))": "initMore",
-			"(φL1.0 < len($inputs))":             "fwdMore",
-			"(φL2.0 < 0)":                        "bwdDone",
-		},
+		Vars: func() map[string]string {
+			m := map[string]string{
+				"(φ" + LF + ".0 < len($inputs))": "fwdMore",
+				"(φ" + LB + ".0 < 0)":            "bwdDone",
+			}
+			if hasInit {
+				m["(φL0.0 < len(zeros(len($inputs))))"] = "initMore"
+			}
+			return m
+		}(),
 		Classify: func(p *edt.Path, out string, e *edt.Env) string {
 			switch {
-			case strings.HasPrefix(out, "next-iteration@L0("):
+			case hasInit && strings.HasPrefix(out, "next-iteration@L0("):
 				return "init"
-			case strings.HasPrefix(out, "next-iteration@L1("):
+			case strings.HasPrefix(out, "next-iteration@"+LF+"("):
 				return "forward"
-			case strings.HasPrefix(out, "next-iteration@L2("):
+			case strings.HasPrefix(out, "next-iteration@"+LB+"("):
 				return "backward"
 			case out == "":
 				return "done"
 			}
 			return ""
 		},
-		Formula: map[string]func(e *edt.Env) edt.Tri{
-			"init":    func(e *edt.Env) edt.Tri { return e.V("initMore") },
-			"forward": func(e *edt.Env) edt.Tri { return edt.And(edt.Not(e.V("initMore")), e.V("fwdMore")) },
-			"backward": func(e *edt.Env) edt.Tri {
-				return edt.And(edt.Not(e.V("initMore")), edt.Not(e.V("fwdMore")), edt.Not(e.V("bwdDone")))
-			},
-			"done": func(e *edt.Env) edt.Tri {
-				return edt.And(edt.Not(e.V("initMore")), edt.Not(e.V("fwdMore")), e.V("bwdDone"))
-			},
-		},
+		Formula: func() map[string]func(e *edt.Env) edt.Tri {
+			noInit := func(e *edt.Env) edt.Tri {
+				if !hasInit {
+					return edt.T
+				}
+				return edt.Not(e.V("initMore"))
+			}
+			return map[string]func(e *edt.Env) edt.Tri{
+				"init":    func(e *edt.Env) edt.Tri { return e.V("initMore") },
+				"forward": func(e *edt.Env) edt.Tri { return edt.And(noInit(e), e.V("fwdMore")) },
+				"backward": func(e *edt.Env) edt.Tri {
+					return edt.And(noInit(e), edt.Not(e.V("fwdMore")), edt.Not(e.V("bwdDone")))
+				},
+				"done": func(e *edt.Env) edt.Tri {
+					return edt.And(noInit(e), edt.Not(e.V("fwdMore")), e.V("bwdDone"))
+				},
+			}
+		}(),
 		Extra: func(p *edt.Path, out, class string, e *edt.Env, ab func(string) string) string {
 			has := func(s string) bool {
 				for _, ev := range p.Events {
@@ -62,26 +83,26 @@ func batchInvertSpec() *edt.Spec {
 			}
 			switch class {
 			case "forward":
-				if !has("loop L1: A<field.Element>#0 enters as Element.One") || !has("loop L1: φL1.0 starts as 0") {
+				if !has("loop "+LF+": A<field.Element>#0 enters as Element.One") || !has("loop "+LF+": φ"+LF+".0 starts as 0") {
 					return "the forward pass must start with the accumulator 1 at index 0 (every input, also the first, goes through the zero-skipping step)"
 				}
-				if out != "next-iteration@L1((φL1.0 + 1))" {
+				if out != "next-iteration@"+LF+"((φ"+LF+".0 + 1))" {
 					return "the forward pass must visit every index in order"
 				}
 				return finalsAre(p, ab, map[string]string{
-					"M<[]field.Element>#0[φL1.0]": "Element.Set(" + acc1 + ")",
-					"A<field.Element>#0":          sel("Element.Mul("+in1+", "+acc1+")", acc1, "Element.IsZero("+in1+")"),
+					"M<[]field.Element>#0[φ" + LF + ".0]": "Element.Set(" + acc1 + ")",
+					"A<field.Element>#0":                  sel("Element.Mul("+in1+", "+acc1+")", acc1, "Element.IsZero("+in1+")"),
 				})
 			case "backward":
-				if !has("loop L2: A<field.Element>#0 enters as Element.Invert("+acc1+")") || !has("loop L2: φL2.0 starts as (len($inputs) - 1)") {
+				if !has("loop "+LB+": A<field.Element>#0 enters as Element.Invert("+acc1+")") || !has("loop "+LB+": φ"+LB+".0 starts as (len($inputs) - 1)") {
 					return "the backward pass must start from the inverse of the accumulated product at the last index"
 				}
-				if out != "next-iteration@L2((φL2.0 - 1))" {
+				if out != "next-iteration@"+LB+"((φ"+LB+".0 - 1))" {
 					return "the backward pass must visit every index down to 0"
 				}
 				return finalsAre(p, ab, map[string]string{
-					"$inputs[φL2.0]":     sel("Element.Mul("+acc2+", sel("+scr+", [φL2.0]))", in2, "Element.IsZero("+in2+")"),
-					"A<field.Element>#0": sel("Element.Mul("+in2+", "+acc2+")", acc2, "Element.IsZero("+in2+")"),
+					"$inputs[φ" + LB + ".0]": sel("Element.Mul("+acc2+", sel("+scr+", [φ"+LB+".0]))", in2, "Element.IsZero("+in2+")"),
+					"A<field.Element>#0":     sel("Element.Mul("+in2+", "+acc2+")", acc2, "Element.IsZero("+in2+")"),
 				})
 			}
 			return ""
